@@ -36,13 +36,8 @@ func (v *vc) smtFor(ob *obligation, withModel bool, values []string) string {
 		b.WriteString(d)
 		b.WriteByte('\n')
 	}
-	for i, l := range v.eng.contracts.smt {
-		if p := v.eng.contracts.smtPkg[i]; p != "" && (v.fc == nil || p != v.fc.pkgPath) {
-			continue
-		}
-		b.WriteString(l)
-		b.WriteByte('\n')
-	}
+	head := b.String()
+	b.Reset()
 	for idx, it := range v.items[:ob.pos] {
 		switch it.kind {
 		case itDecl:
@@ -66,7 +61,13 @@ func (v *vc) smtFor(ob *obligation, withModel bool, values []string) string {
 	if withModel && len(values) > 0 {
 		fmt.Fprintf(&b, "(get-value (%s))\n", strings.Join(values, " "))
 	}
-	return b.String()
+	body := b.String()
+	var lines strings.Builder
+	for _, l := range v.smtLinesFor(body, false) {
+		lines.WriteString(l)
+		lines.WriteByte('\n')
+	}
+	return head + lines.String() + body
 }
 
 type solverSpec struct {
